@@ -18,6 +18,7 @@
                      Recovery that is only withheld because the notification period is closed does not end it.
     * `noDup`      — non-volatile: no non-reminder Problem to a user for the state of the Problem that user
                      was sent last, without a Recovery in between.
+    * `owed`       — forced notifications out of the timer only for forced requests that could not be processed at once.
     * `reminder`   — reminders only from the timer, only in a hard problem state that is neither
                      suppressed nor flapping, never while the initial Problem is still held back (on the
                      checkable after a suppression, or on the notification object after a closed period), at least `interval` after the last (unforced) Problem of the
@@ -42,13 +43,14 @@ structure Obs where
   deriving Repr
 
 inductive Clause
-  | forceClaim | enableFlags | paused | notifPeriod | notifTypeFilter | notifStateFilter | timesWindow | userFilters
+  | forceClaim | forcedBypass | enableFlags | paused | notifPeriod | notifTypeFilter | notifStateFilter | timesWindow | userFilters
   | recoveryAckRecipients | duplicateProblem
   | reminderOnlyFromTimer | reminderCond | reminderBeforeHeld | reminderSpacing | reminderInterval0
   deriving Repr, DecidableEq
 
 def Clause.name : Clause → String
   | .forceClaim => "forced_only_if_force_next_notification_was_set"
+  | .forcedBypass => "forced_notification_reaches_every_enabled_user"
   | .enableFlags => "delivery_only_if_enabled_globally_and_for_checkable"
   | .paused => "paused_notification_object_sends_nothing"
   | .notifPeriod => "delivery_only_if_notification_period_open"
@@ -200,6 +202,35 @@ def heldTrace : List Obs → Option Clause
   | [] => none
   | o :: rest => match heldObs o with | some cl => some cl | none => heldTrace rest
 
+/-! ### forced notifications out of the timer -/
+
+/-- The timer itself never forces anything: a forced notification in a timer run is the late processing of a forced
+    REQUEST the notification object could not process at once (cold-start phase, or queued behind stashed requests).
+    `owed`: the types of the forced requests (`env.force` of a request = its request was forced) that produced no
+    notification when they arrived.  A forced event of a timer run must be of such a type. -/
+def owedObs (owed : List NType) (o : Obs) : Option Clause × List NType :=
+  match o.kind with
+  | .send => (none, if o.env.force && !o.events.any (fun ev => ev.passed) then o.req.toList ++ owed else owed)
+  | .tick => (if o.events.all (fun ev => !ev.force || owed.contains ev.ty) then none else some .forceClaim, owed)
+
+/-! ### forced notifications bypass every filter except the user's enable flag -/
+
+/-- The types without per-user incident rules (a forced Problem may still be withheld as a duplicate, a forced Recovery /
+    Acknowledgement from users who were not told about the problem). -/
+def plainType (ty : NType) : Bool := !(ty == .problem || ty == .recovery || ty == .ack)
+
+/-- "forced notifications bypass every filter except the user's enable flag", the positive half: a forced notification of
+    such a type that is sent at all is sent to EVERY attached user whose enable flag is set — no period, type filter or
+    state filter of a user keeps it away. -/
+def bypassEv (e : Env) (ev : Event) : Bool :=
+  !(ev.passed && ev.force && plainType ev.ty) || e.users.all (fun u => !u.enabled || ev.users.contains u.id)
+
+def bypassObs (o : Obs) : Bool := o.events.all (bypassEv o.env)
+
+def bypassTrace : List Obs → Bool
+  | [] => true
+  | o :: rest => bypassObs o && bypassTrace rest
+
 /-! ### the checkers over a trace, and their conjunction -/
 
 /-- Run a checker (bookkeeping `G`, one step per observed operation) over a trace. -/
@@ -241,6 +272,7 @@ def recipientsTrace (tr : List Obs) : Option Clause := runTrace recipientsObs []
 def noDupTrace (tr : List Obs) : Option Clause := runTrace noDupObs (fun _ => none) tr
 def reminderTrace (c : Cfg) (tr : List Obs) : Option Clause := runTrace (reminderObs c) {} tr
 def reminderTraceLoose (c : Cfg) (tr : List Obs) : Option Clause := runTrace (reminderObsLoose c) {} tr
+def owedTrace (tr : List Obs) : Option Clause := runTrace owedObs [] tr
 
 /-- The whole property on a trace: the first violated clause of the four checkers, if any. -/
 def specTrace (c : Cfg) (tr : List Obs) : Option Clause :=
@@ -255,20 +287,30 @@ def specTrace (c : Cfg) (tr : List Obs) : Option Clause :=
       | none =>
         match reminderTrace c tr with
         | some cl => some cl
-        | none => heldTrace tr
+        | none =>
+          match heldTrace tr with
+          | some cl => some cl
+          | none =>
+            match owedTrace tr with
+            | some cl => some cl
+            | none => if bypassTrace tr then none else some .forcedBypass
 
 /-- Incremental form used by the driver (one operation at a time; same checkers, same bookkeeping). -/
 structure SpecSt where
   ps : List Nat := []
   ls : Nat → Option Nat := fun _ => none
   rem : RemSt := {}
+  owed : List NType := []
 
 def specStep (c : Cfg) (sp : SpecSt) (o : Obs) : List Clause × SpecSt :=
   let d := deliveryObs c () o
   let r := recipientsObs sp.ps o
   let n := noDupObs sp.ls o
   let m := reminderObs c sp.rem o
-  (d.1.toList ++ r.1.toList ++ n.1.toList ++ m.1.toList ++ (heldObs o).toList, { ps := r.2, ls := n.2, rem := m.2 })
+  let w := owedObs sp.owed o
+  (d.1.toList ++ r.1.toList ++ n.1.toList ++ m.1.toList ++ (heldObs o).toList ++ w.1.toList ++
+     (if bypassObs o then [] else [Clause.forcedBypass]),
+   { ps := r.2, ls := n.2, rem := m.2, owed := w.2 })
 
 /-! ### the model's trace -/
 
@@ -286,5 +328,68 @@ def applyOp (c : Cfg) (s : St) : Op → St × Obs
 def traceOf (c : Cfg) : St → List Op → List Obs
   | _, [] => []
   | s, op :: rest => let p := applyOp c s op; p.2 :: traceOf c p.1 rest
+
+/-! ### the checkable's side: one-shot force, notification objects that appear later
+
+  "Forced notifications bypass every filter": a notification is forced when the REQUEST it stems from was forced — a
+  requester set force_next_notification (`setForce`) for it.  The flag belongs to the next request of the checkable and to
+  that one only, whether or not the request reaches a notification object (a checkable without notification objects, or
+  whose objects are attached later).  The specification therefore derives "this request was forced" from the observed
+  sequence of operations itself (`reqForced`), never from the implementation's flag. -/
+
+/-- Operations at the level of the checkable. -/
+inductive COp
+  | setForce                     -- SetForceNextNotification(true) by a requester
+  | attach (b : Bool)            -- the notification object is registered with / removed from the checkable
+  | send (ty : NType) (e : Env)  -- a request; `e.force` is NOT an input here, the model supplies the checkable's flag
+  | tick (e : Env)               -- a run of the notification timer
+  deriving Repr
+
+/-- What is observed at the level of the checkable. -/
+inductive CObs
+  | setForce          -- a requester set force_next_notification
+  | unseen            -- a request of the checkable while the notification object was not registered with it
+  | op (o : Obs)      -- a request / timer run the notification object saw
+  deriving Repr
+
+def cApply (c : Cfg) (k : CkSt) (s : St) : COp → (CkSt × St) × Option CObs
+  | .setForce => ((ckSetForce k, s), some .setForce)
+  | .attach b => (({ k with attached := b }, s), none)
+  | .send ty e =>
+    let r := ckRequest k
+    if k.attached then
+      let p := applyOp c s (.send ty { e with force := r.2 })
+      ((r.1, p.1), some (.op p.2))
+    else ((r.1, s), some .unseen)
+  | .tick e =>
+    -- the timer walks the existing notification objects (notificationcomponent.cpp:138-140)
+    if k.attached then let p := applyOp c s (.tick e); ((k, p.1), some (.op p.2)) else ((k, s), none)
+
+def crun (c : Cfg) : CkSt → St → List COp → CkSt × St
+  | k, s, [] => (k, s)
+  | k, s, op :: rest => let r := cApply c k s op; crun c r.1.1 r.1.2 rest
+
+def ctraceOf (c : Cfg) : CkSt → St → List COp → List CObs
+  | _, _, [] => []
+  | k, s, op :: rest =>
+    let r := cApply c k s op
+    match r.2 with
+    | some o => o :: ctraceOf c r.1.1 r.1.2 rest
+    | none => ctraceOf c r.1.1 r.1.2 rest
+
+/-- The specification's own notion of "this request was forced": a `setForce` was observed since the checkable's
+    previous request (seen by the notification object or not).  Returns the per-object trace in which every request
+    carries that bit as `env.force`. -/
+def reqForced : Bool → List CObs → List Obs
+  | _, [] => []
+  | _, .setForce :: rest => reqForced true rest
+  | _, .unseen :: rest => reqForced false rest
+  | p, .op o :: rest =>
+    match o.kind with
+    | .send => { o with env := { o.env with force := p } } :: reqForced false rest
+    | .tick => o :: reqForced p rest
+
+/-- The whole property on a checkable-level trace. -/
+def specTraceC (c : Cfg) (tr : List CObs) : Option Clause := specTrace c (reqForced false tr)
 
 end Icinga.C03
